@@ -567,7 +567,11 @@ fn stress(c: &Value) -> Value {
     let n = c["mutants"].as_u64().unwrap_or(12);
     let all_truncations = c["all_truncations"].as_bool().unwrap_or(false);
     let chars: Vec<char> = sql.chars().collect();
-    let toks = tokenize_loc(d.as_ref(), sql, true).unwrap_or_default();
+    // the tokenizer itself may panic on the base text: that is a finding, not a harness crash
+    let toks = match std::panic::catch_unwind(std::panic::AssertUnwindSafe(|| tokenize_loc(d.as_ref(), sql, true))) {
+        Ok(t) => t.unwrap_or_default(),
+        Err(e) => return json!({"status":"panic","variant":sql,"unescape":true,"trailing_commas":false,"limit":Value::Null,"panic":panic_msg(e)}),
+    };
     let offs = if toks.is_empty() { vec![0, chars.len()] } else { token_offsets(sql, &toks) };
     let valid = offs.iter().all(|o| *o != usize::MAX && *o <= chars.len());
     let mut rng = Rng::new(seed);
